@@ -71,7 +71,27 @@ func mutate(r *core.Rand, cmd [][]byte) ([]byte, string) {
 	for attempt := 0; attempt < 20; attempt++ {
 		var out []byte
 		kind := ""
-		switch r.Intn(17) {
+		switch r.Intn(19) {
+		case 17:
+			// a complete RESP value that is not a command (a bare bulk, integer, status,
+			// error or nil at top level): nothing may be executed from it and nobody may
+			// die of it - also when complete commands came before it on the connection
+			kind = "bare-top-level-value"
+			out = []byte(pick(r, []string{"$4\r\nPING\r\n", "$-1\r\n", "+OK\r\n", ":1\r\n", "-ERR x\r\n", "$0\r\n\r\n"}))
+			if r.Bool(0.5) {
+				out = append(out, out...)
+			}
+			return out, kind
+		case 18:
+			// the stream ends inside the last argument, right behind a CR LF that is part
+			// of the value: the bytes so far look like a complete, shorter value
+			kind = "truncated-behind-crlf-inside-value"
+			val := []byte("ab\r\ncd\r\nef")
+			c2 := [][]byte{cmd[0], cmd[1], val}
+			e2 := rd.EncodeCommand(c2)
+			head := len(e2) - len(val) - 2
+			cut := pick(r, []int{4, 8})
+			return append([]byte{}, e2[:head+cut]...), kind
 		case 16:
 			// a length of 20+ digits that equals the true length modulo 2^64 (or 2^32):
 			// a hand-rolled digit loop without an overflow check frames the command
